@@ -2,15 +2,21 @@
 (* All interleavings of a few threads running a few jobs each.              *)
 EXTENDS Process, Json
 
-CONSTANTS MaxJobs      \* jobs per thread
+CONSTANTS MaxJobs,     \* jobs per thread
+          ProgSel      \* the programs jobs are drawn from in this configuration
 
 ProgTable == [ rd   |-> <<"read">>,
                wr   |-> <<"read", "write", "read">>,
+               wg   |-> <<"writeg", "read">>,
+               wd   |-> <<"writed", "read">>,
+               uw   |-> <<"usewith", "read">>,
+               fc   |-> <<"failcall">>,
+               dp   |-> <<"deepcall", "read">>,
                df   |-> <<"def", "read">>,
                pu   |-> <<"pure", "read">>,
                uid  |-> <<"uid">>,
                uid2 |-> <<"uid", "uid">> ]
-ProgIds == DOMAIN ProgTable
+ProgIds == ProgSel
 
 RECURSIVE SeqsUpTo(_)
 SeqsUpTo(n) == IF n = 0 THEN {<<>>} ELSE SeqsUpTo(n - 1) \cup {Append(s, p) : s \in {x \in SeqsUpTo(n - 1) : Len(x) = n - 1}, p \in ProgIds}
@@ -28,7 +34,8 @@ RunAlone(steps, i, loc, acc) ==
   IF i > Len(steps) THEN acc
   ELSE LET k == steps[i] IN
        IF k = "read" THEN RunAlone(steps, i + 1, loc, Append(acc, IF loc # 0 THEN loc ELSE BuiltinInit))
-       ELSE IF k = "write" THEN Append(acc, -1)
+       ELSE IF k \in WriteKinds \/ k = "failcall" THEN Append(acc, -1)
+       ELSE IF k = "deepcall" THEN RunAlone(steps, i + 1, loc, Append(acc, 2))
        ELSE IF k = "def" THEN RunAlone(steps, i + 1, 7, acc)
        ELSE IF k = "pure" THEN RunAlone(steps, i + 1, loc, Append(acc, 1))
        ELSE RunAlone(steps, i + 1, loc, acc)
@@ -38,5 +45,5 @@ Alone(p) == RunAlone(ProgTable[p], 1, 0, <<>>)
 MatchesAlone == \A d \in done : ~HasUid(d.prog) => d.out = Alone(d.prog)
 
 Emit == Fresh => PrintT(<<"VEC", ToJson([threads |-> [t \in Threads |-> queue[t]],
-                                         expect |-> [p \in ProgIds |-> Alone(p)]])>>)
+                                         expect |-> [p \in DOMAIN ProgTable |-> Alone(p)]])>>)
 =============================================================================
